@@ -1270,9 +1270,9 @@ func (x *Exec) havocLoop(st *State, f *Frame, lp int) {
 			}
 			switch len(h.Dims) {
 			case 1:
-				st.asserts = append(st.asserts, fmt.Sprintf("(forall ((r Int)) (! (or (= (select %s r) 0) (select %s (select %s r))) :pattern ((select %s r))))", h.Name, st.alloc.Name, h.Name, h.Name))
+				st.asserts = append(st.asserts, fmt.Sprintf("(forall ((r Int)) (! (=> (select %s r) (or (= (select %s r) 0) (select %s (select %s r)))) :pattern ((select %s r))))", st.alloc.Name, h.Name, st.alloc.Name, h.Name, h.Name))
 			case 2:
-				st.asserts = append(st.asserts, fmt.Sprintf("(forall ((r Int) (k %s)) (! (or (= (select (select %s r) k) 0) (select %s (select (select %s r) k))) :pattern ((select (select %s r) k))))", h.Dims[1], h.Name, st.alloc.Name, h.Name, h.Name))
+				st.asserts = append(st.asserts, fmt.Sprintf("(forall ((r Int) (k %s)) (! (=> (select %s r) (or (= (select (select %s r) k) 0) (select %s (select (select %s r) k)))) :pattern ((select (select %s r) k))))", h.Dims[1], st.alloc.Name, h.Name, st.alloc.Name, h.Name, h.Name))
 			}
 		}
 	}
